@@ -83,7 +83,16 @@ func Gen(t *rapid.T) Case {
 		}
 	case "none":
 	default:
-		c.W = vg.Draw(t, shape, maxExt, "W")
+		wshape := shape
+		if c.Op == "copyFrom" && c.VIsDest && rapid.IntRange(0, 2).Draw(t, "smallerSource") == 0 {
+			// CopyFrom places the source in the leading corner of the destination: a source smaller than the
+			// destination in any dimension (libopenwater copies library-initialised states back that way)
+			wshape = make([]int, len(shape))
+			for d := range shape {
+				wshape[d] = rapid.IntRange(1, shape[d]).Draw(t, "srcExt")
+			}
+		}
+		c.W = vg.Draw(t, wshape, maxExt, "W")
 		if c.Op != "copyFrom" {
 			c.InPlace = rapid.IntRange(0, 4).Draw(t, "inPlace") == 0
 		}
@@ -405,7 +414,11 @@ func Exec(c Case, trace *[]string) (r pbt.Result) {
 	var p string
 	switch c.Op {
 	case "copyFrom":
-		vm.Each(dstM.Shape, func(idx []int) { dstM.Set(idx, srcM.Get(idx)) })
+		if fmt.Sprint(srcM.Shape) != fmt.Sprint(dstM.Shape) {
+			r.Label("copyFrom:source-smaller-than-destination")
+			r.NonTrivial = true
+		}
+		vm.Each(srcM.Shape, func(idx []int) { dstM.Set(idx, srcM.Get(idx)) })
 		p = guarded(func() { dstR.CopyFrom(srcR) })
 	case "applySlice":
 		blk := dstM.Slice(c.Sub.Loc, c.Sub.Dims, c.Sub.Step)
